@@ -4,6 +4,7 @@ import (
 	"fmt"
 	"go/token"
 	"go/types"
+	"os"
 	"sort"
 	"strings"
 	"time"
@@ -441,8 +442,12 @@ func (ex *Exec) feasible(g *Term) bool {
 		return true
 	}
 	ex.NFeas++
+	t0 := time.Now()
 	r := ex.Solver.Check([]*Term{g}, ex.FeasTimeout)
 	ex.Solver.Pop()
+	if d := time.Since(t0); d > 200*time.Millisecond && os.Getenv("VERIF_DEBUG") != "" {
+		fmt.Printf("[feas] %v -> %s (%d terms)\n", d, r, ex.tb.NumTerms())
+	}
 	return r != Unsat
 }
 
